@@ -1330,5 +1330,216 @@ end Goml.Graph
 
 EXTRACTORS += [gen_package_ids]
 
+def c08_gen_lift_consts():
+    """C08: naming constants and shape anchors of lift.rs (closure env struct / field / apply function names)"""
+    lift = _norm(open(os.path.join(REPO, "crates/compiler/src/lift.rs")).read())
+    names = _norm(open(os.path.join(REPO, "crates/compiler/src/names.rs")).read())
+    m1 = re.search(r'const CLOSURE_ENV_PREFIX: &str = "(\w+)";', lift)
+    m2 = re.search(r'const CLOSURE_APPLY_METHOD: &str = "(\w+)";', lift)
+    if not m1 or not m2:
+        raise Exception("lift.rs: CLOSURE_ENV_PREFIX / CLOSURE_APPLY_METHOD not found")
+    for needle, what in [
+        ('format!("{}{}_{}", CLOSURE_ENV_PREFIX, hint, self.next_id)', "fresh_struct_name with hint"),
+        ('format!("{}{}", CLOSURE_ENV_PREFIX, self.next_id)', "fresh_struct_name without hint"),
+        ("let primary = name.split('/').next().unwrap_or(name);", "sanitize_env_name: text before the first '/'"),
+        ("if ch.is_ascii_alphanumeric() { ch } else { '_' }", "sanitize_env_name: character map"),
+        (".split('_') .filter(|part| !part.is_empty()) .collect::<Vec<_>>() .join(\"_\");", "sanitize_env_name: underscore runs collapsed"),
+        ("if sanitized.chars().next().is_some_and(|c| c.is_ascii_digit()) { sanitized.insert(0, '_'); }", "sanitize_env_name: leading digit"),
+        ('format!("{}_{}", base, index)', "make_field_name"),
+        ("let apply_fn_name = inherent_method_fn_name(&env_ty, CLOSURE_APPLY_METHOD);", "apply function name"),
+        ("for (index, (name, field_ty)) in captured.iter().enumerate().rev() {", "captured variables rebound innermost-last"),
+        ("fn_params.push((env_param_name.clone(), env_ty.clone())); fn_params.extend(lowered_params.iter().cloned());", "env is the first parameter"),
+        ("let struct_name = state.fresh_struct_name(sanitized_hint.as_deref());", "struct numbered after the body is transformed"),
+    ]:
+        if needle not in lift:
+            raise Exception(f"lift.rs: anchor lost: {what}")
+    m3 = re.search(r'let env_param_name = state\.gensym\.gensym\("(\w+)"\);', lift)
+    m4 = re.search(r'sanitize_env_name\(name\)\.unwrap_or_else\(\|\| "(\w+)"\.to_string\(\)\)', lift)
+    if not m3 or not m4:
+        raise Exception("lift.rs: env parameter gensym prefix / field fallback not found")
+    # which type constructors `ty_contains_closure` looks through
+    body = block_after(lift, r"fn ty_contains_closure\(&self, ty: &Ty\) -> bool \{", "ty_contains_closure")
+    arms = re.findall(r"Ty::(T\w+) \{", body)
+    if arms != ["TStruct", "TTuple", "TArray", "TFunc", "TApp"]:
+        raise Exception(f"lift.rs: ty_contains_closure looks through {arms}")
+    m5 = re.search(r'pub fn inherent_method_fn_name\(receiver_ty: &tast::Ty, method_name: &str\) -> String \{ if is_primitive\(receiver_ty\) \{.*?\} let base = inherent_base\(receiver_ty\); format!\( "(\w+)(\W)\{\}\2\{\}\2\{\}", base, ty_compact\(receiver_ty\), method_name \) \}', names)
+    if not m5:
+        raise Exception("names.rs: inherent_method_fn_name shape changed")
+    write_if_changed("LiftConsts.lean", f"""/- GENERATED by tools/extract.py (c08_gen_lift_consts) from lift.rs, names.rs — do not edit -/
+namespace Goml.Lift.Consts
+def closureEnvPrefix : String := "{m1.group(1)}"
+def applyMethod : String := "{m2.group(1)}"
+/-- prefix handed to the shared `Gensym` for the environment parameter of an apply function -/
+def envParamPrefix : String := "{m3.group(1)}"
+/-- `make_field_name` base when the captured name sanitises to nothing -/
+def fieldFallback : String := "{m4.group(1)}"
+/-- `inherent_method_fn_name`: `<inherentPrefix><sep>base<sep>type<sep>method` -/
+def inherentPrefix : String := "{m5.group(1)}"
+def inherentSep : String := "{m5.group(2)}"
+/-- type constructors `ty_contains_closure` looks through, in source order -/
+def containsClosureArms : List String := [{", ".join('"' + a + '"' for a in arms)}]
+end Goml.Lift.Consts
+""")
+
+EXTRACTORS += [c08_gen_lift_consts]
+
+# ---------------------------------------------------------------- C18: derive dispatch, json_escape_string table
+def c18_rust_lit(lit):
+    """value of a plain Rust string literal body (between the quotes): \\ \" \n \t escapes only"""
+    out, i = [], 0
+    while i < len(lit):
+        if lit[i] == "\\":
+            nxt = lit[i + 1]
+            if nxt not in '\\"nt':
+                raise Exception(f"derive/runtime literal with an escape this extractor does not read: {lit!r}")
+            out.append({"\\": "\\", '"': '"', "n": "\n", "t": "\t"}[nxt]); i += 2
+        else:
+            out.append(lit[i]); i += 1
+    return "".join(out)
+
+def c18_fn_body(text, header_re, what):
+    """brace-balanced body after header_re; braces inside string literals do not count"""
+    m = re.search(header_re, text)
+    if not m:
+        raise Exception(f"anchor gone: {what}")
+    i = text.index("{", m.end() - 1)
+    depth, j, in_str = 0, i, False
+    while j < len(text):
+        c = text[j]
+        if in_str:
+            if c == "\\":
+                j += 1
+            elif c == '"':
+                in_str = False
+        elif c == '"':
+            in_str = True
+        elif c == "{":
+            depth += 1
+        elif c == "}":
+            depth -= 1
+            if depth == 0:
+                return text[i:j + 1]
+        j += 1
+    raise Exception(f"unbalanced body: {what}")
+
+def c18_chars(s):
+    return "[" + ", ".join(str(ord(c)) for c in s) + "]"
+
+def c18_gen_derive():
+    d = _norm(_src("crates/compiler/src/derive.rs"))
+    rt = _norm(_src("crates/compiler/src/go/runtime.rs"))
+    consts = dict(re.findall(r'const (\w+): &str = "([^"]*)";', d))
+    for k in ("TO_STRING_TRAIT", "TO_STRING_FN", "TO_JSON_TRAIT", "TO_JSON_FN", "SELF_PARAM_NAME"):
+        if k not in consts:
+            raise Exception(f"derive.rs: constant {k} is gone")
+    # primitive_to_string_fn: TypeExpr variant -> runtime function
+    body = c18_fn_body(d, r"fn primitive_to_string_fn\(ty: &ast::TypeExpr\) -> Option<&'static str> \{", "derive.rs::primitive_to_string_fn")
+    prim = re.findall(r'ast::TypeExpr::(\w+) => Some\("(\w+)"\)', body)
+    if len(prim) < 12 or "_ => None" not in body:
+        raise Exception(f"derive.rs::primitive_to_string_fn: expected >= 12 arms and a `_ => None`, found {len(prim)}")
+    # call_to_string: string as it is, primitives through the table, everything else `.to_string()`
+    cts = c18_fn_body(d, r"fn call_to_string\(value: Expr, ty: Option<&ast::TypeExpr>, attr_ptr: &MySyntaxNodePtr\) -> Expr \{", "derive.rs::call_to_string")
+    if not re.match(r"\{\s*if matches!\(ty, Some\(ast::TypeExpr::TString\)\) \{ value \} else if let Some\(helper\) = ty\.and_then\(primitive_to_string_fn\) \{ "
+                    r"call_function\(helper, vec!\[value\], attr_ptr\) \} else \{ Expr::ECall \{ func: Box::new\(Expr::EField \{ expr: Box::new\(value\), "
+                    r"field: AstIdent::new\(TO_STRING_FN\), astptr: \*attr_ptr, \}\), args: Vec::new\(\), astptr: \*attr_ptr, \} \}\s*\}$", cts):
+        raise Exception("derive.rs::call_to_string changed shape")
+    # call_to_json: explicit arms, then the primitive table, then `.to_json()`
+    ctj = c18_fn_body(d, r"fn call_to_json\(value: Expr, ty: Option<&ast::TypeExpr>, attr_ptr: &MySyntaxNodePtr\) -> Expr \{", "derive.rs::call_to_json")
+    arms = []
+    for m in re.finditer(r'Some\(ast::TypeExpr::(\w+)\) => (?:\{ )?(call_function\("(\w+)", vec!\[value\], attr_ptr\)|Expr::EString \{ value: "(\w+)"\.to_string\(\), astptr: \*attr_ptr, \})', ctj):
+        arms.append((m.group(1), "fn", m.group(3)) if m.group(3) else (m.group(1), "lit", m.group(4)))
+    if [a[0] for a in arms] != ["TString", "TBool", "TUnit"]:
+        raise Exception(f"derive.rs::call_to_json: explicit arms changed: {arms}")
+    if not re.search(r"other => match other\.and_then\(primitive_to_string_fn\) \{ Some\(helper\) => call_function\(helper, vec!\[value\], attr_ptr\), "
+                     r"None => Expr::ECall \{ func: Box::new\(Expr::EField \{ expr: Box::new\(value\), field: AstIdent::new\(TO_JSON_FN\),", ctj):
+        raise Exception("derive.rs::call_to_json: fall-through arm changed shape")
+    # binders
+    fb = c18_fn_body(d, r"fn field_bindings\(count: usize\) -> Vec<AstIdent> \{", "derive.rs::field_bindings")
+    m = re.search(r'AstIdent::new\(&format!\("(\w+)\{\}", idx\)\)', fb)
+    if not m:
+        raise Exception("derive.rs::field_bindings: binder format changed")
+    prefix = m.group(1)
+    if d.count("field_bindings(") != 5:
+        raise Exception(f"derive.rs: expected field_bindings to be used by the four body builders, found {d.count('field_bindings(') - 1} uses")
+    # literal pieces of the generated text: the model hard-codes them, so they must be exactly these
+    want = {
+        "build_struct_json_body": ['"{}"', '"{"', '","', '"\\"{}\\":"', '"}"'],
+        "build_enum_json_body": ['"{{\\"tag\\":\\"{}\\"}}"', '"{{\\"tag\\":\\"{}\\",\\"fields\\":["', '","', '"]}"'],
+        "build_struct_body": ['"{} {{}}"', '"{} {{ "', '"{}: "', '", "', '" }"'],
+        "build_enum_body": ['"{}::{}"', '"{}::{}("', '", "', '")"'],
+    }
+    for fn, lits in want.items():
+        b = c18_fn_body(d, r"fn " + fn + r"\(\w+: &\w+, attr_ptr: &MySyntaxNodePtr\) -> Expr \{", f"derive.rs::{fn}")
+        got = re.findall(r'(?:value: |format!\()("(?:[^"\\]|\\.)*")', b)
+        if got != lits:
+            raise Exception(f"derive.rs::{fn}: literal pieces changed: {got}")
+    cp = c18_fn_body(d, r"fn concat_parts\(parts: Vec<Expr>, attr_ptr: &MySyntaxNodePtr\) -> Expr \{", "derive.rs::concat_parts")
+    if "op: common_defs::BinaryOp::Add, lhs: Box::new(acc), rhs: Box::new(part)," not in cp:
+        raise Exception("derive.rs::concat_parts is no longer a left fold of `+`")
+    # runtime: json_escape_string = "\"" + ReplaceAll(... ReplaceAll(s, old0, new0) ..., oldN, newN) + "\""
+    js = c18_fn_body(rt, r"fn json_escape_string\(\) -> goast::Fn \{", "runtime.rs::json_escape_string")
+    m = re.search(r'let mut replacements = vec!\[((?: ?\("(?:[^"\\]|\\.)*"\.to_string\(\), "(?:[^"\\]|\\.)*"\.to_string\(\)\),?)+) ?\];', js)
+    if not m:
+        raise Exception("runtime.rs::json_escape_string: explicit replacement pairs not found")
+    pairs = [(c18_rust_lit(a), c18_rust_lit(b)) for a, b in re.findall(r'\("((?:[^"\\]|\\.)*)"\.to_string\(\), "((?:[^"\\]|\\.)*)"\.to_string\(\)\)', m.group(1))]
+    m = re.search(r'for code in (\w+)u8\.\.(\w+) \{ replacements\.push\(\(\(code as char\)\.to_string\(\), format!\("((?:[^"\\]|\\.)*)\{:04x\}", code\)\)\); \}', js)
+    if not m:
+        raise Exception("runtime.rs::json_escape_string: control-character loop not found")
+    lo, hi, pre = int(m.group(1), 0), int(m.group(2), 0), c18_rust_lit(m.group(3))
+    for code in range(lo, hi):
+        pairs.append((chr(code), pre + "%04x" % code))
+    for frag in ['.fold(s_var(), |acc, (old, new)| goast::Expr::Call { func: Box::new(goast::Expr::Var { name: "strings.ReplaceAll".to_string(),',
+                 'args: vec![acc, str_lit(old), str_lit(new)],',
+                 'lhs: Box::new(str_lit("\\"".to_string())), rhs: Box::new(escaped),', 'rhs: Box::new(str_lit("\\"".to_string())),']:
+        if frag not in js:
+            raise Exception(f"runtime.rs::json_escape_string changed near: {frag[:60]}")
+    if any(len(o) != 1 for o, _ in pairs):
+        raise Exception("runtime.rs::json_escape_string: a replaced pattern is not a single character")
+    out = GEN_HEADER.format(src="derive.rs (call_to_json, call_to_string, primitive_to_string_fn, field_bindings), go/runtime.rs (json_escape_string)")
+    out += "namespace Goml.Gen.Derive\n\n"
+    out += f'def toStringFn : String := {lstr(consts["TO_STRING_FN"])}\ndef toJsonFn : String := {lstr(consts["TO_JSON_FN"])}\n'
+    out += f'def selfParam : String := {lstr(consts["SELF_PARAM_NAME"])}\n/-- `field_bindings`: the generated locals are this prefix followed by the index -/\ndef binderPrefix : String := {lstr(prefix)}\n\n'
+    out += "/-- `primitive_to_string_fn`: ast::TypeExpr variant ↦ runtime function -/\ndef primToString : List (String × String) := [\n"
+    out += ",\n".join(f"  ({lstr(a)}, {lstr(b)})" for a, b in prim) + "]\n\n"
+    out += "/-- `call_to_json`: the arms before the primitive table; `fn` = call of that function, `lit` = that text -/\ndef jsonArms : List (String × String × String) := [\n"
+    out += ",\n".join(f"  ({lstr(a)}, {lstr(b)}, {lstr(c)})" for a, b, c in arms) + "]\n\n"
+    out += ("/-- `json_escape_string`: `strings.ReplaceAll(…, old, new)` in application order (innermost first);\n"
+            "    every `old` is one character, given with `new` as code points -/\ndef jsonReplacements : List (Nat × List Nat) := [\n")
+    out += ",\n".join(f"  ({ord(o)}, {c18_chars(n)})" for o, n in pairs) + "]\n\nend Goml.Gen.Derive\n"
+    write_if_changed("Derive.lean", out)
+
+EXTRACTORS += [c18_gen_derive]
+
+# ---------------------------------------------------------------- C03: constants of the type checker model
+def c03_gen_ty_consts():
+    """tast::ARRAY_WILDCARD_LEN (the array length `array_get`/`array_set` are declared with) and the
+    name the typer gives `Self` in trait method signatures"""
+    t = src("crates/compiler/src/tast.rs")
+    m = re.search(r"pub const ARRAY_WILDCARD_LEN: usize = ([^;]+);", t)
+    if not m:
+        raise Exception("anchor lost: tast::ARRAY_WILDCARD_LEN")
+    val = m.group(1).strip()
+    if val == "usize::MAX":
+        n = 2**64 - 1
+    elif re.fullmatch(r"[0-9_]+", val):
+        n = int(val.replace("_", ""))
+    else:
+        raise Exception(f"ARRAY_WILDCARD_LEN has an unexpected form: {val}")
+    b = src("crates/compiler/src/builtins.rs")
+    if b.count("tast::ARRAY_WILDCARD_LEN") != 1:
+        raise Exception("anchor lost: builtins.rs uses ARRAY_WILDCARD_LEN exactly once (array_get/array_set share it)")
+    write_if_changed("TyConsts.lean", f"""/- GENERATED by tools/extract.py from crates/compiler/src/tast.rs, builtins.rs — do not edit; regenerated on every ./check run -/
+
+namespace Goml.Gen
+
+/-- `tast::ARRAY_WILDCARD_LEN`: the length in the signatures of `array_get` / `array_set`, which the
+typer's unifier lets stand for any array length -/
+def arrayWildcardLen : Nat := {n}
+
+end Goml.Gen
+""")
+
+EXTRACTORS += [c03_gen_ty_consts]
+
 if __name__ == "__main__":
     main()
